@@ -39,6 +39,7 @@ type EntryCfg struct {
 	Bounds              string            `json:"bounds"`
 	InitAllow           []string          `json:"init_allow"`
 	NativeReplay        *bool             `json:"native_replay"`
+	TimersManual        bool              `json:"timers_manual"`
 	Opaque              []string          `json:"opaque"`
 }
 
@@ -433,6 +434,10 @@ func (e *Engine) runPathOpts(sol *solver.Session, fn *ssa.Function, cfg *EntryCf
 		globals: map[*ssa.Global]*Value{}, inited: map[*ssa.Package]bool{}, natives: map[*Value]*Native{},
 		rpc: map[*Value]*rpcServer{}, pinned: pinned, pinnedOn: pinned != nil}
 	defer func() {
+		func() {
+			defer func() { recover() }()
+			m.killCoros()
+		}()
 		pr.Decisions = m.trace
 		pr.Steps = m.steps
 		pr.SymInputs = len(m.nondets)
